@@ -131,6 +131,12 @@ theorem helpers_forward_resolved_kwargs :
     helperCardinality.all (fun (_, _, kw) => kw) = true ∧ helperCardinality.length = 4 := by
   constructor <;> decide
 
+/-- the source of `__resolve_request_kwargs` has, for each of the three keywords, exactly
+    the shape `self.k if k is None else k` that `resolve` models (read with `ast` on every run) -/
+theorem resolve_source_shape :
+    resolveShape = [("timeout", true), ("deadline", true), ("metadata", true)] := by
+  decide
+
 /-- **"a method not overridden answers UNIMPLEMENTED"**, static part: under every option
     set the default body of every base method raises
     `grpclib.GRPCError(grpclib.const.Status.UNIMPLEMENTED)` as its first statement, and is
